@@ -612,6 +612,34 @@ def gen_grid(rng):
     if n < 190 and rng.random() < 0.1:
         pbm.addSizeClasses(int(rng.integers(1, 6)))
         glab += '+ext'
+    if rng.random() < 0.3:
+        # pre-history on the same object: the transport functions are evaluated once on the first grid and the
+        # grid is then rebuilt with the SAME number of classes (re-mesh, backup/re-mesh/revert, reset), so that
+        # anything the object remembered about the first grid (class widths, buffers) is stale when the monitored
+        # call is made. The oracle only reads the bounds in force at the monitored call.
+        nb = int(pbm.bins)
+        try:
+            pbm.PSD = np.array(rng.random(nb) * 1e10)
+            g0 = rng.standard_normal(nb + 1) * 1e-10
+            pbm.getDTEuler(1.0, g0.copy(), 0)
+            pbm.getdXdtEuler(g0.copy(), 0.0, float(pbm.PSDbounds[0]), np.array(pbm.PSD))
+            how = ['remesh', 'backup_remesh_revert', 'remesh_reset'][int(rng.integers(0, 3))]
+            lo, hi = float(pbm.PSDbounds[0]), float(pbm.PSDbounds[-1])
+            f = float(rng.uniform(1.5, 6.0)) if rng.random() < 0.5 else float(rng.uniform(0.2, 0.7))
+            if how == 'remesh':
+                pbm.changeSizeClasses(lo, lo + f * (hi - lo), bins=nb)
+            elif how == 'backup_remesh_revert':
+                pbm.changeSizeClasses(lo, lo + f * (hi - lo), bins=nb)
+                pbm.createBackup()
+                pbm.changeSizeClasses(lo, hi, bins=nb)
+                pbm.revert()
+            else:
+                pbm.changeSizeClasses(lo, lo + f * (hi - lo), bins=nb)
+                pbm.getdXdtEuler(g0.copy(), 0.0, float(pbm.PSDbounds[0]), np.array(pbm.PSD))
+                pbm.reset()
+            glab += '+hist'
+        except Exception:
+            glab += '+hist_failed'             # grid bookkeeping itself is C08's subject; the grid is used as it is
     return pbm, glab
 
 
@@ -754,6 +782,8 @@ def run_direct(case, R):
                'growth': gkind, 'rn': rkind}
         R.observe('grid_' + ('n%d' % n if n <= 3 else ('n200' if n == 200 else 'n4-199')))
         R.observe('dist_' + dkind)
+        if '+hist' in glab:
+            R.observe('grid_history_' + glab.split('+hist')[1].lstrip('_') if glab.endswith('failed') else 'grid_history_same_count_rebuild')
         R.observe('growth_' + gkind)
         R.observe('rn_' + rkind)
         populated = sum(1 for v in N if v > 0)
